@@ -1306,8 +1306,25 @@ class Gen:
                 # a scalar sub-query as a value (never first: see above), preferably one of the heap
                 q = self.query_ref(setop_ok=False, select_only=True)
                 v = q if (q is not None and self.p(0.8)) else self.g_query(0, nsel=1)
-            row.append(v)
+            row.append(self._unaliased(v))
         return row
+
+    def _unaliased(self, v):
+        """A VALUES item never carries an alias of the caller's (aliasing a value to be inserted means nothing)."""
+        if not isinstance(v, dict):
+            return v
+        if v.get("t") == "var":
+            o = self.env.heap[v["i"]]
+            if self.kind(o) == "term" and lib.state(o).get("alias") is not None:
+                return 1
+            return v
+        v = dict(v)
+        v.pop("alias", None)
+        if isinstance(v.get("kw"), dict) and "alias" in v["kw"]:
+            v["kw"] = {k: x for k, x in v["kw"].items() if k != "alias"}
+        if v.get("t") == "meth" and v.get("m") == "as_":
+            return self._unaliased(v["x"])
+        return v
 
     def r_insert(self, v, kd, ri, scope):
         if kd == "table":
